@@ -883,20 +883,22 @@ impl DirectAddrUpdateState {
                 {
                     crate::verif_hooks::pause::trace::event(|| "reported".to_string());
                     crate::verif_hooks::pause::gate::pass("direct_addr:reported").await;
+                    // traced before the drop: whatever observes the free lock is traced later
+                    crate::verif_hooks::pause::trace::event(|| "releasing".to_string());
                 }
                 // Release the net reporter before signalling: the actor reacts to the
                 // signal with `try_run`, which needs the lock to start an update that was
                 // requested while this run was in flight.
                 drop(net_reporter);
+                #[cfg(iroh_verif)]
+                {
+                    crate::verif_hooks::pause::gate::pass("direct_addr:released").await;
+                    // traced before the send: the actor's reaction is traced later
+                    crate::verif_hooks::pause::trace::event(|| "signalled".to_string());
+                }
                 // mark run as finished
                 debug!("direct addr update done ({:?})", why);
                 run_done.send(()).await.ok();
-                #[cfg(iroh_verif)]
-                {
-                    crate::verif_hooks::pause::trace::event(|| "signalled".to_string());
-                    crate::verif_hooks::pause::gate::pass("direct_addr:signalled").await;
-                    crate::verif_hooks::pause::trace::event(|| "releasing".to_string());
-                }
             }
             .instrument(tracing::Span::current()),
         );
